@@ -14,6 +14,7 @@ CONFIGS = [
     Config(usage=True, blur=7, allow_list=True, motd="hello", advertise="1.2.3"),
     Config(usage=False, blur=3600, allow_list=False, signal_error="go away"),
     Config(usage=True, blur=61, allow_list=True),
+    Config(usage=True, blur=0, allow_list=True),        # --blur-usage=0 is "no blurring", not an interval
 ]
 
 
